@@ -21,7 +21,10 @@ res = {'seed': seed, 'variant': vi, 'patch': v['patch'], 'demo': v['demo']}
 try:
     subprocess.check_call(['git','-C','/repo','worktree','add','--detach','-q',wt,'HEAD'])
     demo_dir = v.get('demo_dir','index/')
-    demo_dst = os.path.join(wt, demo_dir, os.path.basename(v['demo']))
+    dn = os.path.basename(v['demo'])
+    if dn.endswith('.txt'):
+        dn = dn[:-4]
+    demo_dst = os.path.join(wt, demo_dir, dn)
     shutil.copy(os.path.join(seed, v['demo']), demo_dst)
     pkg = './' + demo_dir.strip('/') + '/' if demo_dir.strip('/') not in ('', '.') else '.'
     runcmd = v.get('demo_run') or ('go test -vet=off -count=1 ' + pkg)
@@ -35,6 +38,10 @@ try:
     res['demo_with_patch'] = {'rc': rc1, 'secs': round(t1,1), 'tail': o1[-1200:]}
     os.remove(demo_dst)
     rc2, o2, t2 = run('go build ./... && go test -vet=off -count=1 -timeout 25m ./...', wt)
+    if rc2 != 0:
+        # one retry: index/lock has a sleep-based sub-process test that fails under machine load
+        rc2, o2, t2 = run('go build ./... && go test -vet=off -count=1 -timeout 25m ./...', wt)
+        res['suite_retried'] = True
     res['suite_with_patch'] = {'rc': rc2, 'secs': round(t2,1), 'tail': '\n'.join(l for l in o2.splitlines() if not l.startswith('ok') and 'no test files' not in l)[-800:]}
     res['confirmed'] = (rc0 == 0 and rc1 != 0 and rc2 == 0 and res['patch_applies'])
 finally:
